@@ -322,6 +322,12 @@ def C02(tier, seed):
             scens.append(_ops([{"op": "Build", "spec": builds[i]["spec"], "how": "builder", "rtoks": []},
                                {"op": "Set", "spec": builds[perm[i]]["spec"], "how": "mf"}], "tlc:enum+writer",
                               targets=PLAIN_T + BRACE_T, writer={"on": True, "c": rng.choice([0, 1, 3, 5])}))
+        # brace targets although NO additional writer is registered ({W,_Default}: W is unknown and reported, the record
+        # goes to the default channel filtered by its module; {W}: nowhere)
+        for i in rng.sample(range(len(builds)), min(300 if quick else 4000, len(builds))):
+            scens.append(_ops([{"op": "Build", "spec": builds[i]["spec"], "how": "builder", "rtoks": []},
+                               {"op": "Set", "spec": builds[perm[i]]["spec"], "how": "mf"}], "tlc:enum+braces-no-writer",
+                              targets=PLAIN_T + BRACE_T))
         # seeded random specifications over the larger name set, random text layout
         for i in range(1500 if quick else 20000):
             s1, s2 = rand_spec(rng), rand_spec(rng)
